@@ -5,6 +5,8 @@ import (
 	"strings"
 
 	"pgregory.net/rapid"
+
+	"verif/sgen"
 )
 
 // Options tune the generator for a particular check.
@@ -220,6 +222,7 @@ func (g *gen) spell(a Attr) Attr {
 		}
 	}
 	a.Tight = rapid.IntRange(0, 4).Draw(g.t, "tight") == 0
+	a.Lines = a.Kind == "expr" && rapid.IntRange(0, 4).Draw(g.t, "exprlines") == 0
 	return a
 }
 
@@ -396,6 +399,11 @@ func (g *gen) node(depth int) Node {
 		if g.cur+1 < g.nTpl && rapid.IntRange(0, 3).Draw(g.t, "sub") > 0 {
 			n.Callee = fmt.Sprintf("sub%d", rapid.IntRange(g.cur+1, g.nTpl-1).Draw(g.t, "subidx"))
 			e := g.strExpr(1)
+			if rapid.IntRange(0, 5).Draw(g.t, "rawml") == 0 {
+				// a raw string literal spanning lines, some of them blank or whitespace-only: the call
+				// expression becomes a multi-line one whose continuation lines are string content
+				e = Expr{Kind: "strlit", Lit: "raw", Str: rapid.SampledFrom([]string{"first\n   \nthird", "a\n\t\nb", "x\n\ny", "one\n  two\n\t\t\nthree ", " \n "}).Draw(g.t, "mlraw")}
+			}
 			n.E = &e
 			if rapid.Bool().Draw(g.t, "block") {
 				n.HasBlock = true
@@ -477,6 +485,20 @@ func GenFile(o Options) *rapid.Generator[*File] {
 			g.cur = i
 			g.svars, g.ivars = nil, nil
 			body := g.nodes(o.MaxDepth, 5)
+			// layered calls: blocks handed from template to template, with and without slots on the way
+			if i < nt-1 && rapid.Bool().Draw(t, "chain") {
+				e := Expr{Kind: "var", Str: "s1"}
+				call := Node{Kind: "call", Callee: fmt.Sprintf("sub%d", i+1), E: &e, Sep: "\n"}
+				if rapid.Bool().Draw(t, "chainblock") {
+					call.HasBlock = true
+					call.Kids = []Node{{Kind: "text", Text: fmt.Sprintf("blk%d", i), Sep: "\n"}}
+				}
+				pos := rapid.IntRange(0, len(body)).Draw(t, "chainpos")
+				body = append(body[:pos:pos], append([]Node{call}, body[pos:]...)...)
+			}
+			if i > 0 && rapid.IntRange(0, 2).Draw(t, "slot") == 0 {
+				body = append(body, Node{Kind: "children", Sep: "\n"})
+			}
 			if len(body) == 0 {
 				body = []Node{{Kind: "text", Text: "empty", Sep: "\n"}}
 			}
@@ -516,10 +538,18 @@ func GenFile(o Options) *rapid.Generator[*File] {
 // GenArgs draws argument values.
 func GenArgs() *rapid.Generator[Args] {
 	strs := []string{"", "a", "x y", "<b>&\"'", "é世", "a&amp;b", "  ", "tab\tx", "line\nbreak", "1 < 2 > 0", "q`", "trail ", " lead", "😀"}
+	// half of the strings come from the HTML-adversarial generator shared with C01 (made valid
+	// UTF-8, without NUL / U+0001 - the matcher's markers - and without CR, which the tokenizer
+	// normalises; those bytes are C01's business)
+	adv := rapid.Custom(func(t *rapid.T) string {
+		s := strings.ToValidUTF8(sgen.HTMLString().Draw(t, "adv"), "?")
+		return strings.NewReplacer("\x00", "", "\x01", "", "\r", "").Replace(s)
+	})
+	str := rapid.OneOf(rapid.SampledFrom(strs), adv)
 	return rapid.Custom(func(t *rapid.T) Args {
 		return Args{
-			S1:   rapid.SampledFrom(strs).Draw(t, "s1"),
-			S2:   rapid.SampledFrom(strs).Draw(t, "s2"),
+			S1:   str.Draw(t, "s1"),
+			S2:   str.Draw(t, "s2"),
 			B1:   rapid.Bool().Draw(t, "b1"),
 			B2:   rapid.Bool().Draw(t, "b2"),
 			N:    rapid.IntRange(0, 3).Draw(t, "n"),
